@@ -1,10 +1,42 @@
 """C05 configuration for ./check (see checks/propcfg.py for the keys)."""
 CFG = {
-    "modules": [],
+    "modules": ["VaxisModel.Props.C05", "VaxisModel.Props.C05Events", "VaxisModel.Props.C05Draw",
+                "VaxisModel.Witness.F15", "VaxisModel.Witness.F16", "VaxisModel.Witness.F17", "VaxisModel.Witness.F18",
+                "VaxisModel.Witness.F19", "VaxisModel.Witness.F20", "VaxisModel.Witness.F105a", "VaxisModel.Witness.F105b",
+                "VaxisModel.Witness.F105c", "VaxisModel.Witness.F105d", "VaxisModel.Witness.F105e", "VaxisModel.Witness.F105f"],
     "extractors": ["C05"],
-    "drivers": ["C05"],
+    "drivers": ["C05", "C05Events"],
     "stateful": True,
     "trivial_prefix": ("-",),
-    "rule": "wip",
-    "timeout": 1200,
+    "rule": "C05: cases = `new W H` + ops on a PTY-less term.Model (hooks VerifNew/VerifFeed/VerifResize/VerifSnapshot); after EVERY op the "
+            "full state snapshot (dims, cursor, lastCol, margins, modes, active screen, pen, charsets, saved cursors, tab stops, both grids "
+            "with grapheme/width/style/wrapped) of the implementation is compared with the model's, and the state clause of C05 is evaluated "
+            "on the implementation's snapshot; panic/hang are outcomes. Streams: corpus (17 witnesses of fixed findings), grammar-generated "
+            "sequences (print narrow/wide/zero-width/combining, C0, ESC, every CSI final of csi() + unknown ones, parameters omitted/0/1/2/"
+            "size-1/size/size+1/65535/65536/2^31/2^63-1/negative (overflowed), sub-parameters, modes, SGR incl. malformed, OSC, APC, resizes; "
+            "sizes 1x1..80x24), raw byte fuzz through the real ansi parser. C05Events: the REAL PTY goroutine loop on a real child process "
+            "(VerifRunLoop) with 0-40 (thorough: up to 300) event-raising sequences. distinct = distinct op sequences.",
+    "trusted_base": ["uniseg grapheme widths are parameters of the model (passed in the op line by the harness, computed by the real library)",
+                     "base64 validity of an OSC 52 payload is passed in by the harness (OscInfo)",
+                     "Go int arithmetic is modelled by unbounded Int: sound because every CSI parameter is clamped to 0..65535 at dispatch "
+                     "(theorem clampParam_ok) and sizes are <= 65535, so no int64 operation of the modelled code can overflow",
+                     "sixel DCS payloads (external decoder go-sixel) and the graphics list are not modelled",
+                     "C05Events: the LTS of the PTY goroutine is tied to the source by the extracted facts eventCap, postEventIsPlainSend, "
+                     "loopArms, loopDrainsFirst and validated against the real loop by the C05Events stream"],
+    "assumptions": ["terminal sizes between 1x1 and 65535x65535 (winsize fields are uint16; the property starts at 1x1)",
+                    "one parsed sequence raises at most one event (theorem events_per_op_le_one for the model)"],
+    "level_text": "C05: for every state satisfying the invariant (cursor on the screen, margins ordered and within the screen, all rows of both "
+                  "grids exactly the terminal's width), every terminal size 1x1..65535x65535, EVERY parsed sequence with EVERY parameter list in Z "
+                  "and every resize, the model of the current code neither panics nor hangs and re-establishes the invariant (emu_safe_step), lifted "
+                  "to all histories by induction (emu_safe_run, session_safe). Draw writes only inside the host window (draw_clipped). The PTY "
+                  "goroutine never blocks in postEvent for any number of events and any schedule (events_never_stall_current). The statement was "
+                  "false before the repairs F15-F20, F105a-f: Witness/F*.lean prove it from concrete inputs.",
+    "level_note": "Proved (all inputs, all sizes, all histories, all schedules): safety + invariant for the model; Draw clipping; event loop "
+                  "deadlock-freedom. Model tied to the source by Gen/TermModes.lean (dispatch labels with their callee, mode tables, sgr labels, "
+                  "attribute bits, tab stops, event channel, loop shape — regenerated every run; the model dispatches through these tables) and by "
+                  "the correspondence check (snapshot after every op). Validated by correspondence only: the function bodies (ICH..DECSTBM, print, "
+                  "resize, ...) are transcribed by hand. Modelled not verified: uniseg widths, base64, sixel decoding, int64 overflow (excluded by "
+                  "the parameter clamp).",
+    "technique": "Lean 4 proof (invariant + per-operation safety lemmas + induction over histories; LTS invariant for the event loop)",
+    "timeout": 1500,
 }
